@@ -51,7 +51,18 @@ func (g *gen) name()         { g.emit(name(g.ident())) }
 var numPool = []string{"0", "1", "2", "7", "10", "42", "255", "256", "65536", "007", "00", "3.14", "0.5", "5.", ".5", "10.25",
 	"1e10", "1E5", "1e+5", "2.5e-3", "5.e1", ".5E+2", "0e0", "0x0", "0x1F", "0XaB", "0xdeadBEEF", "0x7fffffff", "1e308", "123456789012"}
 
-func (g *gen) number() { g.emit(Lexeme{K: "num", S: HB(numPool[g.r.Intn(len(numPool))])}) }
+// numerals whose end invites a wrong merge with what follows: hexadecimal ones ending in e/E (a
+// following + or - is NOT an exponent sign), decimal ones with an exponent (a following ".." is NOT
+// part of the numeral)
+var numEdgePool = []string{"0xe", "0xE", "0xfe", "0XAE", "0x1e", "0xEE", "0xabe", "0x0E", "1e2", "1E2", "3e0", "2.5e1", "7E-1", "1e+2", ".5e1"}
+
+func (g *gen) number() {
+	pool := numPool
+	if g.r.Chance(35) {
+		pool = numEdgePool
+	}
+	g.emit(Lexeme{K: "num", S: HB(pool[g.r.Intn(len(pool))])})
+}
 
 var escLetters = []byte("abfnrtv\\\"'")
 
@@ -160,6 +171,10 @@ func (g *gen) genExpr(d int) *ex {
 		return &ex{prec: 7, op: unops[g.r.Intn(3)], l: g.genExpr(d - 1)}
 	}
 	o := binops[g.r.Intn(len(binops))]
+	if g.r.Chance(25) { // numeral directly followed by + - .. (no blank in the compact layout)
+		o = binops[[]int{8, 9, 10}[g.r.Intn(3)]]
+		return &ex{prec: o.prec, op: o.lx, l: &ex{prec: 9, atom: g.number}, r: g.genExpr(d - 1)}
+	}
 	return &ex{prec: o.prec, op: o.lx, l: g.genExpr(d - 1), r: g.genExpr(d - 1)}
 }
 
